@@ -186,6 +186,31 @@ Definition close_ok (pre : sys) (fired : bool) (n_acks n_closes : N) (post : sys
          else (length (sessions post) =? length (sessions pre))%nat)
    else (n_acks + n_closes =? 0)).
 
+(** Exchange::drop: an exchange that still owes an acknowledgement or still has
+    a retransmission pending must stay behind as Dropped (so that the closer
+    sends the acknowledgement / closes the session); otherwise its slot is freed.
+    A dropped Exchange of a vanished session changes nothing. *)
+Definition drop_ok (pre post : sys) (sid : N) (idx : nat) : bool :=
+  match find_sid (sessions pre) sid with
+  | None => true
+  | Some se =>
+      match nth_error (s_exchs se) idx with
+      | Some (Some e) =>
+          let after :=
+            match find_sid (sessions post) sid with
+            | Some se' => match nth_error (s_exchs se') idx with Some o => o | None => None end
+            | None => None
+            end in
+          if retrans_pending e || ack_pending e then
+            match after with
+            | Some e' => is_dropped (e_role e') && (e_id e' =? e_id e)
+            | None => false
+            end
+          else match after with None => true | Some _ => false end
+      | _ => true
+      end
+  end.
+
 (** accept: only an accept-pending owner of the held message becomes owned *)
 Definition accept_ok (pre : sys) (fired : bool) (sid : N) (idx : nat) : bool :=
   match rx pre with
